@@ -34,7 +34,9 @@ Emptying == Op("sync", <<-360000000>>)     \* -100 h: removes every cue
 InvalidFlags == <<Op("sync", <<0>>), Op("fragment", <<0>>), Op("linear", <<0, 1000, 2000, 3000>>)>>
 CliOK(ops) == \A i \in DOMAIN ops : ops[i].name # "order"
 
-H(s, se, d, de, ops, en, k, k2) == [src |-> s, srcext |-> se, dst |-> d, dstext |-> de, ops |-> ops, entry |-> en, doc |-> k, doc2 |-> k2]
+H(s, se, d, de, ops, en, k, k2) == [src |-> s, srcext |-> se, dst |-> d, dstext |-> de, ops |-> ops, entry |-> en, doc |-> k, doc2 |-> k2, ign |-> FALSE]
+\* the same history with the STL option "ignore the timecode start of programme" handed to Open (file API only)
+Ign(h) == [h EXCEPT !.ign = TRUE]
 Entries == {"lib", "cli"}
 Rng(q) == {q[i] : i \in DOMAIN q}
 
@@ -46,6 +48,7 @@ Err(z) == {H(s, se, d, Canon[d], <<>>, en, 0, 1) : s \in Rng(Srcs), se \in Rng(B
           \cup {H(s, Canon[s], d, Canon[d], ops, en, 0, 1) : s \in Rng(Srcs), d \in Rng(Dsts),
                   ops \in {<<Emptying>>, <<Alphabet[1], Emptying>>, <<Emptying, Alphabet[6]>>}, en \in Entries}
           \cup {H(s, Canon[s], d, Canon[d], <<InvalidFlags[i]>>, "cli", 0, 1) : s \in {"srt", "stl"}, d \in {"vtt", "ttml"}, i \in DOMAIN InvalidFlags}
+          \cup {Ign(H("stl", ".stl", d, Canon[d], ops, "lib", k, k + 1)) : d \in Rng(Dsts), ops \in {<<>>, <<Alphabet[1]>>}, k \in 0..5}
 
 \* pseudo-random operation sequences: a linear congruential walk seeded by (GEN_SEED, pair, entry, j)
 NA == Len(Alphabet)
